@@ -3220,6 +3220,8 @@ class Qube(object):
 
         # If a number...
         if isinstance(arg, numbers.Real):
+            for deriv in self._derivs_.values():
+                deriv.require_writable()    # stop before anything is modified
             self._values_ *= arg
             self._new_values_()
             for key, deriv in self._derivs_.items():
@@ -3421,6 +3423,8 @@ class Qube(object):
 
         # If a number...
         if isinstance(arg, numbers.Real) and arg != 0:
+            for deriv in self._derivs_.values():
+                deriv.require_writable()    # stop before anything is modified
             self._values_ /= arg
             self._new_values_()
             for key, deriv in self._derivs_.items():
